@@ -244,6 +244,22 @@ def units():
     bnd('bnd.fs.from_vector.u8', 'bs_flatset_from_vector', [FS8 + '__ctor__rrVector_E_A_u8_Dyn_0_rGhostCmp_rA', FS8 + '__ValueEqui__op_call__rE_rE_c'], ['C03', 'C02'],
         dict(UQ, **{'BFS_T': 'struct ' + FS8, 'BVEC_T': 'struct StdVectorBase_E_A_u8', 'BFS_VECTOR_T': 'struct Vector_E_A_u8_Dyn_0',
                     'BFS_FROM_VECTOR(s, v, c)': '{ struct A bs_al = {0}; %s__ctor__rrVector_E_A_u8_Dyn_0_rGhostCmp_rA(s, v, c, &bs_al); }' % FS8}))
+    SSn = 'SmallSet_E_4_GhostCmp_A_FlatSet_E_GhostCmp_A_Vector_E_A_u32_Dyn_0'
+    FFn = SSn + '___FindFunctor_ElemNR'
+    for la in (0, 1):
+        for lb in (0, 1):
+          for lo, hi in (((1, 2), (3, 3)) if la else ((0, 2), (3, 3), (4, 4))):
+            for tokv, tname in ((0, 'asc'), (1, 'desc'), (2, 'coarse')):
+                bnd('bnd.ss.merge.%s%d-%d_%s.%s' % ('large' if la else 'inline', lo, hi, 'large' if lb else 'inline', tname), 'bs_smallset_merge',
+                    [SSn + '__merge__r' + SSn, FFn + '__op_call__rE_c'], ['C04', 'C05', 'C02'], tier=('quick' if tokv == 0 else 'thorough'), vimpl='VectorImpl_E_X_u8_t_Unc', bound=8, extra_defs=
+                    {'BSS_T': 'struct ' + SSn, 'BSS_N': '4', 'BVEC_T': 'struct StdVectorBase_E_A_u32', 'BSS_MERGE(a, b)': '%s__merge__r%s(a, b)' % (SSn, SSn),
+                     'FINDFUNCTOR_T': 'struct ' + FFn, 'FINDFUNCTOR_CALL(fp, e)': FFn + '__op_call__rE_c(fp, e)', 'BSS_LA': str(la), 'BSS_LB': str(lb), 'BSS_TOK': str(tokv), 'BSS_NA_LO': str(lo), 'BSS_NA_HI': str(hi)})
+                us[-1]['stubbed'] = []      # the inline part is a FixedCapacityVector: its real code is used
+                for k in list(us[-1]['defs']):
+                    if k.startswith('BV_'):
+                        del us[-1]['defs'][k]
+                us[-1]['defs'].update({'BDOM': '8' if tokv == 2 else '6', 'L0C_MAXN': '5', 'CS_MAX': '7'})
+                us[-1]['bound_text'] = 'receiver: inline with at most 4 elements or large with 1..3; argument: inline with at most 2 or large with 1..2; ranks in [0,6); ascending and descending order, strict or coarse'
     for sz in ('u8',):
         add('SafeNextCapacity.%s' % sz, 'SafeNextCapacity__%s_u64_b' % sz, ['C08', 'C18'], 1, svb('ElemNR', sz), sz, 'ElemNR')
     add('ExceptionGrowingPolicy.Check', 'Exc__Check__u64_u64', ['C08'], 1, svb('ElemNR', 'u8'), 'u8', 'ElemNR')
